@@ -76,16 +76,16 @@ let handle ws = match ws with
         | "dr" | "rq" -> None
         | "qp" when server -> None
         | _ -> Some l2) kinds in
-      (* shutdown(0) on the lost transport; a client that already sent its GOAWAY(0) returns Ok without writing *)
+      (* shutdown(0) on the lost transport; a client that already sent its GOAWAY(0) has nothing to write; either way the
+         guard at the top of shutdown answers first *)
       let e4 = if (not server) && closing = "shutdown" then None else Some l2 in
       let r = run_case gen_cfg (nat_of_int k) setup (nat_of_int np) p1 errs sched p1 errs2 errs3 e4 in
       let opt l os = String.concat "," (List.map2 (fun x o -> match o with None -> "-" | Some _ -> show_srep x) l os) in
       let s1 = String.concat "," (List.map2 (fun x kd -> if kd = "dr" then "-" else show_srep x) r.r_s1 kinds) in
       let ones = String.concat "," (List.map (fun _ -> "1") kinds) in
-      let m = Printf.sprintf "ok keys=%s d1=%s woken=%d s1=%s d2=%s s2=%s s3=%s d4=%s d3=%s close=%s"
-        ones (show_dev r.r_d1) (if r.r_woken then 1 else 0) s1 (show_dev r.r_d2)
-        (opt r.r_s2 errs2) (opt r.r_s3 errs3)
-        (match e4 with None -> "ok" | Some _ -> show_dev r.r_d4)
+      let m = Printf.sprintf "ok keys=%s d1=%s woken=%d s1=%s d2=%s d2s=%s s2=%s s3=%s d4=%s d3=%s close=%s"
+        ones (show_dev r.r_d1) (if r.r_woken then 1 else 0) s1 (show_dev r.r_d2) (show_dev r.r_d2s)
+        (opt r.r_s2 errs2) (opt r.r_s3 errs3) (show_dev r.r_d4)
         (show_dev r.r_d3) (show_closes r.r_close) in
       (* specification: the first raise in schedule order is the outcome *)
       let derr = match own with Some (e, t, _) -> Some (nat_of_int t, e) | None -> None in
@@ -95,8 +95,9 @@ let handle ws = match ws with
             let x = show_cerr (spec_report e) in
             let xs1 = String.concat "," (List.map (fun kd -> if kd = "dr" then "-" else x) kinds) in
             let xo l = String.concat "," (List.map (fun o -> match o with None -> "-" | Some _ -> x) l) in
-            Printf.sprintf "ok keys=%s d1=* woken=* s1=%s d2=%s s2=%s s3=%s d4=%s d3=%s close=%s" ones xs1 x (xo errs2) (xo errs3)
-              (match e4 with None -> "*" | Some _ -> x) x
+            (* every later driver call, shutdown() included, reports the outcome *)
+            Printf.sprintf "ok keys=%s d1=* woken=* s1=%s d2=%s d2s=%s s2=%s s3=%s d4=%s d3=%s close=%s" ones xs1 x x (xo errs2) (xo errs3)
+              x x
               (match spec_close_code e with Some c -> string_of_n c | None -> "-")) in
       m ^ " | " ^ s
   | _ -> "driver-error unknown-case"
